@@ -127,6 +127,59 @@ def known_devs(c):
     return sorted(set(active))
 
 
+def establishment_race(c, thorough):
+    """'The routes ... are exactly the routes a brand-new session would be sent': a neighbour whose session COMES UP while source
+    sessions keep changing the RIB.  register_peer takes, shard by shard and under the shard's lock, the initial dump and
+    registers the neighbour's event channel.  Complete interleavings of Subscribe.tla (the model of exactly this hand-over:
+    two shards, two source threads, one or two observers, scheduling points before every shard lock) are replayed on real
+    threads with the observers being neighbours; the dump folded with the events delivered afterwards must equal what a session
+    coming up at the end is given."""
+    import C18
+    num = 400 if thorough else 150
+    inp = os.path.join(vf.WORK, "C01.race.sub.in")
+    outp = os.path.join(vf.WORK, "C01.race.out")
+    exp = []
+    nw = 0
+    with open(inp, "w") as f:
+        for prog, ends, subs in C18.CONFIGS:
+            tag = f"{prog}-{'+'.join(ends) or 'none'}-{len(subs)}"
+            rw = vf.tlc(C18.SPEC, "SubscribeMC", C18.cfg(f"C01.race.{tag}.cfg", prog, ends, subs, [], ["EmitWalk"]),
+                        workers=1, timeout=900, simulate=num, depth=60, seed=c.seed + 31, heap="4g")
+            for w in vf.parse_walks(rw.stdout):
+                if not w[-1]["quiescent"]:
+                    continue
+                # every other behaviour with peer p1's next hop unreachable (its paths are in the table but not in the Loc-RIB)
+                f.write(f"walk {prog} {','.join(ends) or '-'} {4 + nw % 2}\n")
+                exp.append(("walk", tag, None))
+                for stp in w:
+                    f.write(f"{stp['th']} {stp['step']}\n")
+                    exp.append(("step", tag, stp))
+                exp.append(("final", tag, [f"{x['th']} {x['step']}" for x in w]))
+                nw += 1
+    vf.daemon_test("subscribe_replay", {"VERIF_IN": inp, "VERIF_OUT": outp}, timeout=2400)
+    got = vf.read_jsonl(outp)
+    if len(got) != len(exp):
+        raise vf.ToolError(f"subscribe_replay (neighbours): {len(got)} lines for {len(exp)} expected")
+    reported = False
+    checked = 0
+    for (k, tag, e), g in zip(exp, got):
+        if k != "final" or not g.get("completed"):
+            continue
+        for u, pv in g.get("peers", {}).items():
+            checked += 1
+            if pv["view"] != pv["fresh"] and not reported:
+                reported = True
+                c.violation("export.establishment", {"neighbour": u, "dump_plus_events": pv["view"], "a_session_coming_up_now": pv["fresh"],
+                                                     "why": "a neighbour whose session came up while the RIB was changing ends up with other routes than a "
+                                                            "brand-new session is given"},
+                            {"spec": "Subscribe (neighbour registration)", "config": tag, "steps": e})
+    if checked == 0:
+        raise vf.ToolError("establishment_race: no neighbour view was compared")
+    c.cov["parts"]["establishment_race"] = {"behaviours": nw, "neighbour_views_compared": checked}
+    c.cov["evaluations"] += checked
+    c.cov["traces_validated_against_impl"] += nw
+
+
 def main(c):
     thorough = c.tier == "thorough"
     devs = known_devs(c)
@@ -264,6 +317,7 @@ def main(c):
                      "distinct = distinct (operation, mirror, channel length) triples")
     if allw:
         c.sample({"config": allw[0][1], "ops": [line(x["op"]) for x in allw[0][2][:12]]})
+    establishment_race(c, thorough)
     c.assumptions += [
         "ranking among sources is by router-id only (all other steps tie), LLGR-stale last; path ids are compared modulo renaming",
         "half of the behaviours run under an export policy that rejects one attribute class (policy evaluation itself is C14); "
